@@ -1455,7 +1455,8 @@ cleanup:
     lydctx->parse_opts = prev_parse_opts;
     LOG_LOCBACK(0, 1);
     if (!(*node)->hash) {
-        /* list without keys is unusable */
+        /* list without keys is unusable, nodes of the subtree must not be validated later */
+        lyd_ctx_forget_subtree((struct lyd_ctx *)lydctx, *node);
         lyd_free_tree(*node);
         *node = NULL;
     }
